@@ -198,7 +198,8 @@ impl Ctx {
                 }
             }
         }
-        if name.contains(" as quote::ToTokens>::to_token_stream") || name.contains(" as quote::ToTokens>::into_token_stream") {
+        if name.contains(" as quote::ToTokens>::to_token_stream") || name.contains(" as quote::ToTokens>::into_token_stream")
+            || name.contains(" as quote::to_tokens::ToTokens>::to_token_stream") || name.contains(" as quote::to_tokens::ToTokens>::into_token_stream") {
             for tn in ["quote::ToTokens", "quote::to_tokens::ToTokens"] {
                 if let Some(i) = self.resolve_tm(tn, "to_tokens", &[first]) {
                     aux.insert("ToTokens::to_tokens".into(), json!(self.note_inst(i)));
